@@ -183,6 +183,43 @@ func (c *Ctx) SigningRootProvenance(prop string) {
 			if hex != nil && hex.Index == 0 {
 				H, _ = hex.Tuple.(*ssa.Call)
 			}
+			// the container may be built and hashed in a module helper that is given this position's request
+			FC, isDC := F, isD
+			if H != nil && H.Call.StaticCallee() != nil && prog.InModule(H.Call.StaticCallee()) && H.Call.StaticCallee().Blocks != nil && !H.Call.IsInvoke() {
+				callee := H.Call.StaticCallee()
+				var hp *ssa.Parameter
+				for i, a := range H.Call.Args {
+					if isD(a) && i < len(callee.Params) {
+						hp = callee.Params[i]
+					}
+				}
+				var inner *ssa.Call
+				okH := hp != nil
+				for _, ret := range an.Returns(callee) {
+					ex, isEx := an.Result(ret, 0).(*ssa.Extract)
+					if !isEx || ex.Index != 0 {
+						okH = false
+						break
+					}
+					call, isCall := ex.Tuple.(*ssa.Call)
+					if !isCall || (inner != nil && inner != call) {
+						okH = false
+						break
+					}
+					// the error of the hash is returned with it
+					if len(ret.Results) == 2 {
+						if e2, isE2 := an.Result(ret, 1).(*ssa.Extract); !isE2 || e2.Tuple != ssa.Value(call) || e2.Index != 1 {
+							okH = false
+							break
+						}
+					}
+					inner = call
+				}
+				if okH && inner != nil {
+					H, FC = inner, callee
+					isDC = func(v ssa.Value) bool { return v == ssa.Value(hp) }
+				}
+			}
 			if H == nil || H.Call.StaticCallee() == nil || H.Call.StaticCallee().Name() != "HashTreeRoot" || len(H.Call.Args) != 1 {
 				c.R.Fail(rule3, Fn(F), c.Pos(G), "the data root is neither the request's Data nor the hash tree root of a container built from it: "+an.Term(dataRootArg), "dataRoot = container.HashTreeRoot()", nil)
 				continue
@@ -198,7 +235,7 @@ func (c *Ctx) SigningRootProvenance(prop string) {
 				c.R.Unknown(rule2, Fn(F), c.Pos(H), "unknown container type "+cname)
 				continue
 			}
-			got, why := containerFill(F, C, isD)
+			got, why := containerFill(FC, C, isDC)
 			if why != "" {
 				c.R.Fail(rule2, Fn(F), c.Pos(H), why, "each container field from the same-named request field", nil)
 				continue
